@@ -1786,20 +1786,24 @@ impl<'arena> PrettyFormatter<'arena> {
         let binder = self
             .manifest_parameter_view(parameter.binder)
             .map(|view| self.manifest_parameter(view, parameter.binder))
-            .unwrap_or_else(|| match self.arena.pats[&parameter.binder] {
-                | Pattern::Ann(_) | Pattern::Manifest(_) | Pattern::Paren(_) => {
-                    self.pattern(parameter.binder)
+            .unwrap_or_else(|| {
+                // The parameter's parentheses belong to the grammar, not to the
+                // binder: a parenthesized binder needs them in addition to its own,
+                // unless its own are elided.
+                let binder = self.transparent_pattern_group(parameter.binder);
+                match self.arena.pats[&binder] {
+                    | Pattern::Ann(_) | Pattern::Manifest(_) => self.pattern(binder),
+                    | _ => self.delimited(
+                        None,
+                        "(",
+                        vec![LayoutFragment::entity(
+                            binder.into(),
+                            self.annotated_pattern(binder),
+                        )],
+                        ",",
+                        ")",
+                    ),
                 }
-                | _ => self.delimited(
-                    None,
-                    "(",
-                    vec![LayoutFragment::entity(
-                        parameter.binder.into(),
-                        self.annotated_pattern(parameter.binder),
-                    )],
-                    ",",
-                    ")",
-                ),
             });
         LayoutFragment::entity(
             parameter.binder.into(),
